@@ -133,6 +133,23 @@ fn cli_case(t0: &mut Tape, w: &Worker) -> CaseResult {
     } else {
         gen_multi_error_stream(t0, &mut out.labels)
     };
+    // a sixth of the inputs end inside the payload of their last packet, whose RDH breaks a running rule as well: the
+    // reader's message about the incomplete payload and the validator's message about that RDH come from different threads
+    let mut bytes = bytes;
+    if !conforming_control && ot.chance(1, 6) {
+        let (walked, _) = walk(&bytes);
+        if let Some(last) = walked.last() {
+            if last.complete && last.payload_end - last.payload_start >= 16 && walked.len() >= 2 {
+                let o = last.offset as usize;
+                let mut r = Rdh::decode(&bytes[o..o + 64]);
+                r.pages_counter = r.pages_counter.wrapping_add(5);
+                bytes[o..o + 64].copy_from_slice(&r.encode());
+                let cut = last.payload_start + (last.payload_end - last.payload_start) / 2;
+                bytes.truncate(cut);
+                out.labels.push("input_ends_inside_last_payload".into());
+            }
+        }
+    }
     let mode = *ot.pick(&[Mode::All, Mode::AllIts, Mode::AllItsStave]);
     let mute = ot.chance(1, 3);
     let toml_fmt = ot.chance(1, 2);
@@ -418,7 +435,7 @@ fn many_errors_case(i: u64, w: &Worker) -> CaseResult {
 pub fn build() -> Property {
     Property {
         id: "C05",
-        rule: "Multi-link (1..8 links, interleaved) G_conf streams corrupted so that several messages share an offset (E10+E11, E991+E70, E40+E444, E50) on every link, plus G_mut edits and a conforming control; a fifth padded to exactly 100 / 200 packets; \
+        rule: "Multi-link (1..8 links, interleaved) G_conf streams corrupted so that several messages share an offset (E10+E11, E991+E70, E40+E444, E50) on every link, plus G_mut edits and a conforming control; a fifth padded to exactly 100 / 200 packets; a sixth cut off inside the payload of the last packet whose RDH also breaks a running rule; \
                modes {check all, check all its, check all its-stave} x mute x {JSON, TOML} (a fifth of the non-stave cases additionally with --filter-link <present link> -o <file>, an output the tool documents as ignored next to a check). Each case is executed K times (quick 8, thorough 40) on the hook-enabled CLI under different \
                FASTPASTA_VERIF_SCHED settings (unperturbed, slow validators, slow collector, slow dispatcher, random yields/sleeps at every channel hand-off). Oracle: all K runs give the same ERROR records in the \
                same order, the same report (minus `Processed in`), a byte-identical statistics file and the same exit status. Non-trivial = the K runs produced >= 2 distinct pre-sort arrival orders \
